@@ -3,6 +3,7 @@ package main
 // Loop structure of an SSA function and syntactic modified-sets.
 
 import (
+	"go/token"
 	"go/types"
 	"sort"
 
@@ -77,10 +78,15 @@ type ModSet struct {
 	Big       bool
 	Maps      map[string]bool
 	offStable map[*ssa.Alloc]bool // slice cells only ever assigned append/make/nil results
+	// Targets: struct-field families whose every write in the region goes through a pointer read
+	// from a local cell (`p.f = v` with p a local variable); Untargeted: families also written otherwise.
+	Targets    map[string][]*ssa.Alloc
+	Untargeted map[string]bool
+	curTarget  *ssa.Alloc
 }
 
 func newModSet() *ModSet {
-	return &ModSet{offStable: map[*ssa.Alloc]bool{}, Cells: map[*ssa.Alloc]bool{}, Fams: map[string]Family{}, AllocFams: map[string]Family{}, Ghosts: map[string]bool{}, Maps: map[string]bool{}}
+	return &ModSet{Targets: map[string][]*ssa.Alloc{}, Untargeted: map[string]bool{}, offStable: map[*ssa.Alloc]bool{}, Cells: map[*ssa.Alloc]bool{}, Fams: map[string]Family{}, AllocFams: map[string]Family{}, Ghosts: map[string]bool{}, Maps: map[string]bool{}}
 }
 
 func (m *ModSet) addFamsOf(root RootKind, t types.Type, off, n int) {
@@ -90,6 +96,11 @@ func (m *ModSet) addFamsOf(root RootKind, t types.Type, off, n int) {
 	}
 	for _, f := range fams[off : off+n] {
 		m.Fams[f.Name] = f
+		if m.curTarget != nil && root == RStruct {
+			m.Targets[f.Name] = append(m.Targets[f.Name], m.curTarget)
+		} else {
+			m.Untargeted[f.Name] = true
+		}
 	}
 }
 
@@ -102,6 +113,7 @@ func (m *ModSet) union(o *ModSet) {
 	}
 	for k, v := range o.Fams {
 		m.Fams[k] = v
+		m.Untargeted[k] = true
 	}
 	for k, v := range o.AllocFams {
 		m.AllocFams[k] = v
@@ -160,7 +172,13 @@ func (x *Exec) modOfStore(m *ModSet, addr ssa.Value, valT types.Type) {
 				return
 			}
 			// base is a pointer value: heap struct
+			if u, ok := a.X.(*ssa.UnOp); ok && u.Op == token.MUL && !dualTypes[typeName(st)] {
+				if c, ok := u.X.(*ssa.Alloc); ok && !c.Heap {
+					m.curTarget = c
+				}
+			}
 			x.modOfHeapWrite(m, st, off, valT)
+			m.curTarget = nil
 			return
 		case *ssa.IndexAddr:
 			x.modOfIndex(m, a, off, valT)
